@@ -15,12 +15,12 @@ PLANS = {
 }
 
 PLANS["C02"] = {
-    "quick": [J("restart", "c=2,f=1", 90), J("restartwrap", "c=2", 40), J("restartfs", "c=1,f=1", 60), J("restart2p", "p=1,c=1,s=1", 60)],
+    "quick": [J("restart", "c=2,f=1", 90), J("restartwrap", "c=2", 40), J("restartfs", "c=1,f=1", 60), J("restart2p", "p=1,c=1,s=1", 60), J("window21", "c=1,f=1", 40)],
     "thorough": [J("restart", "c=3,f=2,p=1", 900), J("restartwrap", "c=3,f=1,p=1", 600), J("restartfs", "c=2,f=1", 600), J("restart2p", "p=2,c=1,s=1", 600)],
 }
 
 PLANS["C03"] = {
-    "quick": [J("qos2out", "f=1,c=1", 60), J("qos2out", "f=2", 60), J("qos2out", "c=2,s=1", 60)],
+    "quick": [J("qos2out", "f=1,c=1", 60), J("qos2out", "f=2", 60), J("qos2out", "c=2,s=1", 60), J("pubflowvol", "f=1,s=1", 40)],
     "thorough": [J("qos2out", "f=3,c=2,p=1", 900)],
 }
 PLANS["C05"] = {
